@@ -38,3 +38,32 @@ def run(ctx):
             # mechanism layer: the very list order the code threads (drift only)
             for x in ctx.validate("Cache/HashMapTrace.tla", "HashMapTrace.cfg", t, env={"STRICT": "1"}):
                 ctx.drift.append("hash_map list order differs from the as-coded threading at %s" % x["event"][:120])
+    strmap(ctx, big)
+
+
+def strmap(ctx, big):
+    """second table: private/string_map.h (open addressing, linear probing with wrap-around, doubling)"""
+    ctx.design("Cache/StringMap.tla", "StringMap.cfg", workers=8, timeout=900, note="8 keys (hash = key), tables 2 -> 4 -> 8 -> 16, up to 6 entries: every add / get / clear sequence")
+    for cfg, what in [("StringMap_f_get.cfg", "get() does not wrap around while insert() does (= seed C01-6)"),
+                      ("StringMap_f_insert.cfg", "insert() does not wrap around")]:
+        ctx.design("Cache/StringMap.tla", cfg, workers=4, timeout=600, expect_violation="GetCorrect", count=False, note="seeded design fault: " + what)
+    exe = ctx.harness("strmap_drv", ["cache/strmap_drv.cpp"], flavour="asan")
+    runs = [(40, 3, "wrap"), (31, 4, "wrap")]   # larger populations only in the thorough tier (the per-state invariants walk the whole table)
+    if big:
+        runs += [(n, 3, p) for n in (20, 33, 64, 65, 129, 300) for p in ("wrap", "mixed", "random")]
+    for i, spec in enumerate(runs):
+        t = os.path.join(ctx.work, "sm-%d.ndjson" % i)
+        rc, out, err = ctx.run_harness(exe, spec, trace=t, timeout=600)
+        if rc != 0:
+            rp = os.path.join(ctx.replays, "strmap-crash-%d.txt" % i)
+            open(rp, "w").write("strmap_drv %s (VERIF_SEED=%s)\nrc=%s\n%s\n" % (" ".join(map(str, spec)), ctx.seed, rc, err[-4000:]))
+            ctx.violation("strmap:crash", "string_map driver died (sanitizer / signal): %s" % err[-200:].replace("\n", " "), rp)
+            continue
+        for ln in open(t).read().splitlines()[:500]:
+            ctx.seen("sm:" + ln.split('"e":"')[1].split('"')[0])
+        bad = ctx.validate("Cache/StringMapTrace.tla", "StringMapTrace.cfg", t, env={"STRICT": "0", "JAVA_TOOL_OPTIONS": "-Xss256m"})
+        for x in bad:
+            ctx.violation("strmap:%s" % x["event"].split('"e":"')[1].split('"')[0], "string_map trace is not a behaviour of a table of distinct names at %s" % x["event"][:160], x["path"])
+        if not bad:
+            for x in ctx.validate("Cache/StringMapTrace.tla", "StringMapTrace.cfg", t, env={"STRICT": "1", "JAVA_TOOL_OPTIONS": "-Xss256m"}):
+                ctx.drift.append("string_map enumeration order differs from the as-coded chain at %s" % x["event"][:120])
